@@ -9,6 +9,7 @@ import (
 	"sort"
 	"strings"
 	"testing"
+	"unicode/utf8"
 
 	"github.com/Tnze/go-mc/chat"
 	en_us "github.com/Tnze/go-mc/data/lang/en-us"
@@ -159,6 +160,65 @@ var c17KnownKeys = map[string]bool{"text": true, "bold": true, "italic": true, "
 	// keys of the vanilla component format that go-mc does not write today (any protocol version): not an alarm
 	"type": true, "fallback": true, "keybind": true, "score": true, "selector": true, "separator": true, "nbt": true, "block": true,
 	"entity": true, "storage": true, "interpret": true, "source": true, "shadow_color": true, "click_event": true, "hover_event": true}
+
+// c17NestedKeys: wherever a component carries a click or hover event, the event compound has its mandatory
+// keys (vanilla's codec requires action+value for click events, action+contents|value for hover events).
+func c17NestedKeys(t *rn.Tag, path string) string {
+	switch t.Type {
+	case rn.List:
+		for i, e := range t.L {
+			if d := c17NestedKeys(e, fmt.Sprintf("%s[%d]", path, i)); d != "" {
+				return d
+			}
+		}
+	case rn.Compound:
+		if ce := t.Get("clickEvent"); ce != nil {
+			if ce.Type != rn.Compound || ce.Get("action") == nil || ce.Get("value") == nil {
+				return path + ".clickEvent lacks action or value: " + ce.String()
+			}
+		}
+		if he := t.Get("hoverEvent"); he != nil {
+			if he.Type != rn.Compound || he.Get("action") == nil {
+				return path + ".hoverEvent lacks action: " + he.String()
+			}
+		}
+		for i, k := range t.K {
+			if d := c17NestedKeys(t.V[i], path+"."+string(k)); d != "" {
+				return d
+			}
+		}
+	}
+	return ""
+}
+
+// foreignJSON writes s as a JSON string the way encoders other than Go's do: the solidus escaped, every
+// non-ASCII rune as \uXXXX (astral ones as a surrogate pair), \b and \f spelled out. All of it is plain
+// RFC 8259.
+func foreignJSON(s string) []byte {
+	out := []byte{'"'}
+	for _, r := range s {
+		switch {
+		case r == '"' || r == '\\':
+			out = append(out, '\\', byte(r))
+		case r == '/':
+			out = append(out, '\\', '/')
+		case r == '\b':
+			out = append(out, '\\', 'b')
+		case r == '\f':
+			out = append(out, '\\', 'f')
+		case r < 0x20 || r == 0x7f:
+			out = append(out, []byte(fmt.Sprintf("\\u%04x", r))...)
+		case r < 0x80:
+			out = append(out, byte(r))
+		case r >= 0x10000:
+			r -= 0x10000
+			out = append(out, []byte(fmt.Sprintf("\\u%04x\\u%04x", 0xd800+(r>>10), 0xdc00+(r&0x3ff)))...)
+		default:
+			out = append(out, []byte(fmt.Sprintf("\\u%04X", r))...)
+		}
+	}
+	return append(out, '"')
+}
 
 // stripCodes removes § formatting codes (either case), independently of go-mc's regexp.
 func stripCodes(s string) string {
@@ -316,6 +376,9 @@ func c17Check(d MsgD) *pbt.Violation {
 			return pbt.V("c17.nbt.keys", "compound with the expected keys", "unexpected key %q in %s", k, tree)
 		}
 	}
+	if d := c17NestedKeys(tree, "$"); d != "" {
+		return pbt.V("c17.nbt.nested-keys", "an independent NBT reader decodes it to a compound with the expected keys (events included)", "%s\n tree %s", d, tree)
+	}
 	var mn chat.Message
 	rd := bytes.NewReader(append(nb.Bytes(), 0xA5))
 	var rnn int64
@@ -345,7 +408,7 @@ func c17Check(d MsgD) *pbt.Violation {
 	return nil
 }
 
-var c17Texts = []string{"", "hello", "§r", "§a", "§K", "§l§o", "a\"b", "§cred§r", "§Kx§Ly", "100%", "%s", "§", "é世", "line\nbreak", "§§a", "tab\tx", "§zkeep"}
+var c17Texts = []string{"", "hello", "§r", "§a", "§K", "§l§o", "a\"b", "§cred§r", "§Kx§Ly", "100%", "%s", "§", "é世", "line\nbreak", "§§a", "tab\tx", "§zkeep", "a/b", "</b>", "\U0001F600 ok", "\b\f"}
 
 func genMsg(t *rapid.T, depth int) MsgD {
 	d := MsgD{Text: rapid.SampledFrom(c17Texts).Draw(t, "text")}
@@ -492,7 +555,27 @@ func c17CheckShape(c C17Shape) *pbt.Violation {
 	jo, _ := json.Marshal(objs)
 	js1, _ := json.Marshal(first)
 	jc, _ := json.Marshal(map[string]string{"text": first})
-	for name, js := range map[string][]byte{"string": js1, "compound": jc, "list-of-strings": jl, "list-of-compounds": jo} {
+	forms := map[string][]byte{"string": js1, "compound": jc, "list-of-strings": jl, "list-of-compounds": jo}
+	if utf8.ValidString(first) {
+		// the same texts as another JSON encoder would spell them
+		forms["string"+"(foreign escapes)"] = foreignJSON(first)
+		fl := []byte{'['}
+		allValid := true
+		for i, s := range c.Texts {
+			if !utf8.ValidString(s) {
+				allValid = false
+			}
+			if i > 0 {
+				fl = append(fl, ',')
+			}
+			fl = append(fl, foreignJSON(s)...)
+		}
+		if allValid {
+			forms["list-of-strings"+"(foreign escapes)"] = append(fl, ']')
+		}
+		forms["compound"+"(foreign escapes)"] = append(append([]byte(`{"text":`), foreignJSON(first)...), '}')
+	}
+	for name, js := range forms {
 		var m chat.Message
 		var err error
 		if pv, stack := pbt.Try(func() { err = json.Unmarshal(js, &m) }); pv != nil {
